@@ -691,6 +691,13 @@ def register_core(M):
             return ex.call_value(a[1], [ex.field_of(o, 0, 0, '?')])
         return Adt(dty, {(1, 0): ex.field_of(o, 1, 0, '?')}, 1, None)
 
+    @reg('Result::or_else')
+    def _(ex, info, a, dty):
+        o = ex.materialize(a[0])
+        if ex.branch(M.discr(ex, o) == bv(0)):
+            return Adt(dty, {(0, 0): ex.field_of(o, 0, 0, '?')}, 0, None)
+        return ex.call_value(a[1], [ex.field_of(o, 1, 0, '?')])
+
     @reg('hint::must_use', 'must_use')
     def _(ex, info, a, dty):
         return a[0]
@@ -786,8 +793,17 @@ def register_core(M):
                     if len(cands) == 1:
                         return ex.call_body(cands[0], a)
             s, d = (info['self_ty'] or ''), (dty or '')
+            v0 = ex.materialize(a[0])
+            if info['key'] == 'Into::into' and isinstance(v0, Obj) and v0.kind == 'panic_payload' and head(d) == 'Arc':
+                return Ref(Cell(Obj('payload_value', tag=v0.tag, ty=v0.ty)), (), pid=bv(0x6000000000000000 + Cell._n * 64))
+            if info['key'] == 'From::from' and not d:
+                d = s            # called through a fn item (`.map_err(Info::from)`): the target is the impl's self type
             if info['key'] == 'From::from' and head(d) in ('Arc', 'Box'):
-                return Ref(Cell(a[0]), (), pid=bv(0x6000000000000000 + Cell._n * 64))
+                v0 = ex.materialize(a[0])
+                if isinstance(v0, Obj) and v0.kind == 'panic_payload' and head(d) == 'Arc':
+                    # Arc<dyn Any>::from(Box<dyn Any>): the content moves over, its concrete type stays what it was
+                    v0 = Obj('payload_value', tag=v0.tag, ty=v0.ty)
+                return Ref(Cell(v0), (), pid=bv(0x6000000000000000 + Cell._n * 64))
         if info['key'] in ('Pin::new_unchecked', 'Pin::new'):
             return Adt(dty or 'Pin<?>', {(None, 0): a[0]}, None, None)
         if info['key'] == 'IntoIterator::into_iter':
@@ -801,6 +817,13 @@ def register_core(M):
         if body is not None and st not in ('Source',):
             return ex.call_body(body, a)
         return M.load(ex, a[0])
+
+    @reg('Drop::drop')
+    def _(ex, info, a, dty):
+        body = ex.prog.resolve(info)
+        if body is not None:
+            return ex.call_body(body, a)
+        return UNIT       # explicit drop glue of a library type (e.g. the emptied Box after `*boxed` was moved out)
 
     @reg('Arc::new', 'Box::new', 'Rc::new', 'Box::pin', 'Arc::pin')
     def _(ex, info, a, dty):
@@ -916,6 +939,17 @@ def register_core(M):
     # ------------------------------------------------------------ equality on opaque values
     @reg('PartialEq::eq', 'PartialEq::ne')
     def _(ex, info, a, dty):
+        sty0 = (info['self_ty'] or '').strip()
+        if sty0.startswith('&') and strip_ref(sty0) and not strip_ref(sty0).strip().startswith(('str', '[')):
+            # blanket `impl PartialEq<&B> for &A`: compare the referents
+            x, y = ex.materialize(a[0]), ex.materialize(a[1])
+            if isinstance(x, Ref) and isinstance(y, Ref):
+                x1, y1 = ex.materialize(ex.read_path(x.cell, x.path)), ex.materialize(ex.read_path(y.cell, y.path))
+                if isinstance(x1, Ref) and isinstance(y1, Ref):
+                    i2 = dict(info)
+                    i2['self_ty'] = strip_ref(sty0)
+                    i2['text'] = '<%s as PartialEq>::%s' % (i2['self_ty'], info['method'])
+                    return M.table[info['key']](ex, i2, [x1, y1], dty)
         body = ex.prog.resolve(info)
         if body is not None:
             return ex.call_body(body, a)
@@ -1057,6 +1091,8 @@ def _deep_eq(self, ex, a, b):
             return z3.BoolVal(True)
     if a is UNIT and b is UNIT:
         return z3.BoolVal(True)
+    if isinstance(a, Obj) and isinstance(b, Obj) and getattr(self, 'obj_eq', None) is not None:
+        return self.obj_eq(ex, a, b)        # harness-defined equality of opaque model objects
     raise Inconclusive('deep_eq of %r and %r' % (a, b))
 
 
